@@ -4,6 +4,7 @@
 
 mod util;
 mod s_deblock;
+mod s_yuv;
 
 fn main() {
     // Panics are expected outcomes here; keep stderr quiet.
@@ -19,6 +20,8 @@ fn main() {
         "deblock-sweep" => s_deblock::sweep(&rest[0], &rest[1]),
         "deblock-kernel" => s_deblock::kernel(&rest[0]),
         "strength-table" => s_deblock::strength_table(),
+        "yuv-px" => s_yuv::px(&rest[0], &rest[1], &rest[2], &rest[3]),
+        "yuv-img" => s_yuv::img(&rest[0]),
         other => {
             eprintln!("unknown suite {other}");
             std::process::exit(2);
